@@ -23,10 +23,22 @@ def resultBase (f : FilterName) : List Cls :=
   | .first_ | .last_ | .find_ | .default_ => Cls.all
   | _ => strClasses          -- every other filter returns a string
 
-/-- … and, when the left value is an int of more than 4300 digits, possibly a value that still carries it (a list
-wrapping it, the int itself): it stringifies like `int_giant` -/
+/-- does the filter hand (part of) its left value on: sequence filters wrap a scalar as `[l]`, `slice`/`first`/… may
+return it -/
+def passesLeft (f : FilterName) : Bool :=
+  match f with
+  | .concat_ | .map_ | .reverse_ | .sort_ | .sort_natural_ | .sort_numeric_ | .where_ | .reject_ | .uniq_ | .compact_
+  | .slice_ | .split_ | .first_ | .last_ | .find_ | .default_ => true
+  | _ => false
+
+/-- the classes of the result: by kind, plus the left value itself for the filters that pass it on (a list `[l]`
+behaves like `l` for every sequence filter that follows, and stringifies at worst like it) -/
 def resultCls (f : FilterName) (l : Cls) : List Cls :=
-  if l == int_giant then resultBase f ++ [int_giant] else resultBase f
+  (if passesLeft f then resultBase f ++ [l] else resultBase f)
+  -- `sequence_filter` returns nil when an inner `_getitem` met a nil item
+  ++ (if f.decos.contains .sequence_filter then [none_] else [])
+  -- `map` fills missing properties with its private `_Null` object, which `json` cannot serialise (like undefined)
+  ++ (match f with | .map_ => [undefined] | _ => [])
 
 abbrev Link := FilterName × List Cls
 
